@@ -1520,6 +1520,35 @@ package gedcom
 //@   trusted
 //@   pure
 
+// C10 / C11 (what counts as a unique identifier): a _UID contributes its UUID
+// only when it is well formed (UUID() returned no error) - otherwise every
+// malformed _UID would contribute the same empty identifier and make strangers
+// "certain" matches; every FamilySearch ID contributes its text.
+//@ func IndividualNode.UniqueIdentifiers
+//@   props C10 C11
+//@   ghost uerr iface
+//@   ghost fresh1 bool = false
+//@   ghost nUUID int = 0
+//@   ghost nAddU int = 0
+//@   opaque IndividualNode.UniqueIDs, IndividualNode.FamilySearchIDs, UniqueIDNode.UUID, NewStringSet, UUID.String, FamilySearchIDNode.String
+//@   oncall UniqueIDNode.UUID check of-this-identifier: arg0 == id
+//@   oncall UniqueIDNode.UUID do uerr = result1; fresh1 = true; nUUID = nUUID + 1
+//@   oncall UUID.String check only-of-a-well-formed-identifier: fresh1 && isnil(uerr)
+//@   oncall UUID.String do fresh1 = false; nAddU = nAddU + 1
+//@   loop 1 iter one-lookup-per-identifier-and-added-iff-well-formed: nUUID == old(nUUID) + 1 && nAddU - old(nAddU) == ite(isnil(uerr), 1, 0)
+
+// C20 (whom a warning is attributed to): while the records of the document are
+// walked, the context handed to every warning names the root record that is
+// being walked and nothing else - an individual record sets the individual and
+// clears the family, a family record sets the family and clears the individual
+// - and every node of the record is visited through Filter into a scratch
+// document.
+//@ func Document.Warnings
+//@   props C20
+//@   opaque Filter, NewDocument
+//@   oncall Filter check walks-this-record-with-its-own-context: arg0 == node && implies(typeis(node, "*gedcom.IndividualNode"), context.Individual == data(node) && context.Family == nil) && implies(typeis(node, "*gedcom.FamilyNode"), context.Family == data(node) && context.Individual == nil)
+//@   oncall Filter check into-a-scratch-document: fresh(arg1)
+
 // C11 (the stages run one after the other): the pointer stage's "already sent"
 // guards only protect against individuals the unique-identifier stage has
 // COMPLETELY processed, so the producer calls the unique-identifier stage, and
